@@ -75,3 +75,31 @@ func VerifDumpSlot(l *Latches, i int, name func(*Lock) string) string {
 	}
 	return strconv.Itoa(i) + ":q=[" + strings.Join(q, ";") + "];c=" + strconv.Itoa(lt.count) + ";w=[" + strings.Join(w, ",") + "]"
 }
+
+// VerifHeldKeys: hex keys of all nodes that currently have an owner (node.value != nil), in slot/list order.
+func VerifHeldKeys(l *Latches) []string {
+	var out []string
+	for i := range l.slots {
+		lt := &l.slots[i]
+		lt.Lock()
+		for n := lt.queue; n != nil; n = n.next {
+			if n.value != nil {
+				out = append(out, verifHex(n.key))
+			}
+		}
+		lt.Unlock()
+	}
+	return out
+}
+
+// VerifWaitingTotal: number of locks queued in all waiting lists.
+func VerifWaitingTotal(l *Latches) int {
+	n := 0
+	for i := range l.slots {
+		lt := &l.slots[i]
+		lt.Lock()
+		n += len(lt.waiting)
+		lt.Unlock()
+	}
+	return n
+}
